@@ -64,8 +64,12 @@ ALL = gates.CORE_FAMILIES + gates.QUDIT_FAMILIES + ['Sycamore']
 
 def apply_stream(ctx, cirq, mods, checks, n):
     rng = ctx.rng
-    for _ in range(n):
-        g = gates.draw(rng, rng.choice(gates.FAST) if rng.random() < 0.4 else rng.choice(ALL))
+    todo = [gates.draw(rng, rng.choice(gates.FAST) if rng.random() < 0.4 else rng.choice(ALL)) for _ in range(n)]
+    # every special value of every parameter, and every pair of special values, of every family with a kernel/fast path
+    for fam in ALL:
+        if fam not in ('Ctrl', 'Matrix', 'Diagonal', 'Identity', 'Perm', 'QFT', 'CSwap', 'Sycamore'):
+            todo += gates.special_grid(rng, fam) + gates.pair_grid(rng, fam)
+    for g in todo:
         k = len(g.shape)
         cg = g.cirq_gate(cirq, mods)
         sub = rng.random() < 0.25 and k >= 1 and all(d == 2 for d in g.shape) and k <= 2
